@@ -38,6 +38,7 @@ namespace Givaro {
 		_primes.allocate(0);
 		_primes.copy( inprimes );
 		_ck.resize(0);
+		ComputeCk(); // -- the const accessors only read: several threads may share one system
 	}
 
 	// -- Array of primes are given
@@ -47,6 +48,7 @@ namespace Givaro {
 	_ck(0)
 	{
 		GIVARO_ASSERT( inprimes.size()>0, "[RNSsystem<RING,Domain>::RNSsystem] bad size of array");
+		ComputeCk(); // -- the const accessors only read: several threads may share one system
 	}
 
 	// -- Computes Ck , Ck = (\prod_{i=0}^{k-1} primes[i])^(-1) % primes[k],
@@ -89,16 +91,14 @@ namespace Givaro {
 	template<class RING, class Domain>
 	const typename RNSsystem<RING,Domain>::array& RNSsystem<RING,Domain>::Reciprocals() const
 	{
-		if (_ck.size() ==0) ((RNSsystem<RING,Domain>*)this)->ComputeCk();
-		return _ck;
+		return _ck; // -- computed by the constructors / setPrimes
 	}
 
 
 	template<class RING, class Domain>
 	const typename RNSsystem<RING,Domain>::modulo RNSsystem<RING,Domain>::reciprocal(const size_t i) const
 	{
-		if (_ck.size() ==0) ((RNSsystem<RING,Domain>*)this)->ComputeCk();
-		return _ck[i];
+		return _ck[i]; // -- computed by the constructors / setPrimes
 	}
 
 } // namespace Givaro
